@@ -142,7 +142,7 @@ def run_history(py7zr, hist, workdir, *, target="path", filters_by_session=None,
     arc_path = os.path.join(workdir, "t.7z")
     stream = None
     trace = []
-    contents = {}  # c -> bytes
+    contents = {1: b""}  # c -> bytes (1 = the empty file)
     names = {}  # (n, c) -> str
     sess = 0
     z = None
@@ -154,7 +154,12 @@ def run_history(py7zr, hist, workdir, *, target="path", filters_by_session=None,
             f.write(data)
         contents.update(bcont)
         names.update(bnames)
-        trace.append({"e": "base", "members": [{"n": n, "c": c} for n, c in members]})
+        first = read_back(py7zr, data, contents, names, password, ref_reader)
+        if not first["ok"] or any(m["c"] < 0 or m["n"] == 0 for m in first["members"]) or len(first["members"]) != len(members):
+            # py7zr does not read this foreign archive correctly to begin with: reader conformance is C06, not C08
+            return [{"e": "skip", "why": "base not read correctly by py7zr: " + first.get("err", "")[:80]}]
+        trace.append({"e": "base", "members": first["members"], "metas": first["metas"],
+                      "refmetas": first["ref"]["metas"] if first["ref"].get("present") and first["ref"].get("ok") else []})
         sess = 1
     if target == "stream":
         stream = io.BytesIO(open(arc_path, "rb").read() if base is not None else b"")
@@ -190,7 +195,7 @@ def run_history(py7zr, hist, workdir, *, target="path", filters_by_session=None,
             contents[c] = data
             nm = member_name(n, c)
             # write() strips a drive-like prefix from the stored name on purpose (C16); writestr/writef keep it
-            names[(n, c)] = re.sub(r"^[a-zA-Z]:/*", "", nm) if k == "write" else nm
+            names[(n, c)] = re.sub(r"^[a-zA-Z]:/*", "", nm) if k in ("write", "writedir") else nm
             trace.append({"e": "call", "k": k, "n": n, "fault": fault})
             before_failed = {x: counter.tries.get(x, 0) for x in failed}
             exc = "none"
@@ -204,6 +209,13 @@ def run_history(py7zr, hist, workdir, *, target="path", filters_by_session=None,
                     else:
                         src = FaultyStream(data, None, counter, c)
                     z.writef(src, "../" + nm if fault == "badname" else nm)
+                elif k == "writedir":
+                    p = os.path.join(workdir, f"dir_{c}")
+                    if fault != "missing":
+                        os.makedirs(p, exist_ok=True)
+                    fp = FaultyPath(p)
+                    FaultyPath._faults[p] = {"fault": fault, "counter": counter, "cid": c, "after": 0}
+                    z.write(fp, nm)
                 else:
                     p = os.path.join(workdir, f"src_{c}")
                     if fault != "missing":
@@ -254,7 +266,10 @@ def read_back(py7zr, raw, contents, names, password=None, ref_reader=None):
                 n, c0 = by_name.get(nm, (0, 0))
                 prod = fac.products.get(nm)
                 data = prod.read() if prod is not None else None
-                c = by_hash.get(hashlib.sha256(data).digest(), 0) if data is not None else (c0 if infos[nm].emptystream else 0)
+                if data is not None:
+                    c = by_hash.get(hashlib.sha256(data).digest(), -1)
+                else:
+                    c = 0 if (infos[nm].emptystream and infos[nm].is_directory) else -1
                 ev["members"].append({"n": n, "c": c})
                 fi = infos[nm]
                 mt = int(fi.lastwritetime) if fi.lastwritetime is not None else -1
@@ -266,6 +281,47 @@ def read_back(py7zr, raw, contents, names, password=None, ref_reader=None):
         ev["err"] = type(e).__name__ + ":" + str(e)[:100]
         ev["members"] = []
         ev["metas"] = []
-    if ref_reader is not None:
-        ev["ref"] = ref_reader(raw, password, by_name, by_hash)
+    ev["ref"] = ref_reader(raw, password, by_name, by_hash) if ref_reader is not None else {"present": False}
     return ev
+
+
+KINDCODE = {"file": 1, "dir": 2, "empty": 3, "symlink": 4}
+
+
+def limbs(v, width=3):
+    """non-negative int -> 20-bit limbs (TLC integers are 32-bit); None -> [-1]"""
+    if v is None:
+        return [-1]
+    return [(v >> (20 * i)) % (1 << 20) for i in range(width)] + [v >> (20 * width)]
+
+
+def ref_reader(raw, password, by_name, by_hash):
+    """the archive as the independent reference reader (strict) sees it"""
+    from .refcodec import read_archive
+    from .refcodec.errors import RefCodecError
+
+    out = {"present": True, "ok": True, "members": [], "metas": [], "err": ""}
+    try:
+        # bytes after the header are not part of the archive (an append session that shrinks the archive leaves the tail of
+        # the old file behind); readers ignore them, and no listed property forbids them
+        if len(raw) >= 32:
+            end = 32 + int.from_bytes(raw[12:20], "little") + int.from_bytes(raw[20:28], "little")
+            if 32 <= end < len(raw):
+                raw = raw[:end]
+                out["trailing"] = True
+        p = read_archive(raw, password, strict=True)
+    except RefCodecError as e:
+        out["ok"] = False
+        out["err"] = type(e).__name__ + ":" + str(e)[:200]
+        return out
+    for m in p.members:
+        n, _ = by_name.get(m["name"], (0, 0))
+        if m["kind"] == "dir":
+            c = 0
+        elif m["data"] is not None and len(m["data"]) == 0:
+            c = 1
+        else:
+            c = by_hash.get(hashlib.sha256(m["data"]).digest(), -1)
+        out["members"].append({"n": n, "c": c})
+        out["metas"].append([n, c, KINDCODE.get(m["kind"], 0)] + limbs(m["mtime"]) + limbs(m["attrib"], 1))
+    return out
